@@ -118,6 +118,9 @@ func (h *H) evalFault(c *core.Case, s *Scenario, dir, world string, r *run) {
 	}()
 	argvOverride := false
 	switch s.Fault {
+	case "stdoutfull":
+		// standard output cannot take the bytes (ENOSPC): a failed write is a failure, not a silent success
+		mustFail = goodOK
 	case "none", "stdout":
 	case "noargs":
 		cfg.RawArgv = []string{}
@@ -222,7 +225,9 @@ func (h *H) evalFault(c *core.Case, s *Scenario, dir, world string, r *run) {
 	}
 	before := Snapshot(dir)
 	var res *core.Result
-	if s.Fault == "fsize" {
+	if s.Fault == "stdoutfull" {
+		res = runWithStdoutFull(h.Env, rc, world)
+	} else if s.Fault == "fsize" {
 		// warm the go build cache with the identical package state, so that only moq's own write meets the limit
 		warm := rc.Clone()
 		warm.Cfg.Out, warm.Cfg.Rm = "", false
@@ -329,6 +334,18 @@ func (h *H) evalFault(c *core.Case, s *Scenario, dir, world string, r *run) {
 		h.libraryWriterCheck(rc, world, pristine, failed, r)
 	}
 	r.nonTrivial = (failed && priorExists) || (failed && s.Fault == "badarg" && s.BadPos > 0) || s.PkgVariant != "" || strings.Count(s.OutRel, "/") >= 2 || (failed && c.Prop == "C18")
+}
+
+func runWithStdoutFull(env core.Env, c *core.Case, world string) *core.Result {
+	argv, cwd := c.Argv(world)
+	var quoted []string
+	for _, a := range argv {
+		quoted = append(quoted, "'"+strings.ReplaceAll(a, "'", `'\''`)+"'")
+	}
+	script := fmt.Sprintf("exec '%s' %s > /dev/full", env.MoqBin, strings.Join(quoted, " "))
+	res := core.RunCmd(env, c, world, cwd, "/bin/sh", []string{"-c", script}, env.Watchdog)
+	res.Argv = append(argv, ">/dev/full")
+	return res
 }
 
 func runWithFsizeLimit(env core.Env, c *core.Case, world string, blocks int) *core.Result {
